@@ -383,13 +383,21 @@ def verifiedKernels : List ((String × String) × String) := [
   (("c/blake3_avx512_x86-64_windows_gnu.S", "blake3_compress_in_place_avx512"), "B3.Props.C05BW.asm_avx512_wgnu_compress_in_place"),
   (("c/blake3_avx512_x86-64_windows_gnu.S", "blake3_compress_xof_avx512"), "B3.Props.C05BW.asm_avx512_wgnu_compress_xof"),
   (("c/blake3_sse41_x86-64_windows_msvc.asm", "blake3_compress_in_place_sse41"), "B3.Props.C05W.asm_msvc_sse41_compress_in_place"),
-  (("c/blake3_sse41_x86-64_windows_msvc.asm", "blake3_compress_xof_sse41"), "B3.Props.C05W.asm_msvc_sse41_compress_xof")]
+  (("c/blake3_sse41_x86-64_windows_msvc.asm", "blake3_compress_xof_sse41"), "B3.Props.C05W.asm_msvc_sse41_compress_xof"),
+  (("c/blake3_sse2_x86-64_windows_msvc.asm", "blake3_compress_in_place_sse2"), "B3.Props.C05WM.asm_msvc_sse2_compress_in_place"),
+  (("c/blake3_sse2_x86-64_windows_msvc.asm", "blake3_compress_xof_sse2"), "B3.Props.C05WM.asm_msvc_sse2_compress_xof"),
+  (("c/blake3_avx512_x86-64_windows_msvc.asm", "blake3_compress_in_place_avx512"), "B3.Props.C05WM.asm_msvc_avx512_compress_in_place"),
+  (("c/blake3_avx512_x86-64_windows_msvc.asm", "blake3_compress_xof_avx512"), "B3.Props.C05WM.asm_msvc_avx512_compress_xof"),
+  (("c/blake3_sse41_x86-64_unix.S", "blake3_hash_many_sse41"), "B3.Props.C05M.asm_sse41_hash_many"),
+  (("c/blake3_neon.c", "blake3_hash_many_neon"), "B3.Simd.neon_hash_many_eq"),
+  (("src/wasm32_simd.rs", "compress_in_place"), "B3.Simd.wasm_compress_in_place_eq"),
+  (("src/wasm32_simd.rs", "compress_xof"), "B3.Simd.wasm_compress_xof_eq"),
+  (("src/wasm32_simd.rs", "hash_many"), "B3.Simd.wasm_hash_many_eq")]
 
 /-- assembly routines without an instruction-level theorem: calling convention proved (G26, `Props/C07A`), results tied to the
 other implementations by the correspondence runs of C05 / C07 on this machine (the Windows-GNU files through `ms_abi`) -/
 def observedKernels : List (String × String) := [
   ("c/blake3_sse2_x86-64_unix.S", "blake3_hash_many_sse2"),
-  ("c/blake3_sse41_x86-64_unix.S", "blake3_hash_many_sse41"),
   ("c/blake3_avx2_x86-64_unix.S", "blake3_hash_many_avx2"),
   ("c/blake3_avx512_x86-64_unix.S", "blake3_hash_many_avx512"),
   ("c/blake3_avx512_x86-64_unix.S", "blake3_xof_many_avx512"),
@@ -398,21 +406,14 @@ def observedKernels : List (String × String) := [
   ("c/blake3_avx2_x86-64_windows_gnu.S", "blake3_hash_many_avx2"),
   ("c/blake3_avx512_x86-64_windows_gnu.S", "blake3_hash_many_avx512")]
 
-/-- neither proved nor run here: the MASM files (calling convention proved, G26; they cannot be assembled on this machine), the NEON
-C file and the Wasm SIMD module (no ARM / Wasm target here).  Outside the quantifier of C04 (x86 levels and portable). -/
+/-- neither proved nor run here: the `hash_many` routines of the MASM files (calling convention proved, G26; they cannot be assembled on
+this machine).  (The NEON C file and the Wasm SIMD module are in `verifiedKernels`: translated and proved over lane models that could
+not be run against hardware here - no ARM target; the Wasm lane model is checked instruction by instruction in node.) -/
 def unexercisedKernels : List (String × String) := [
-  ("c/blake3_sse2_x86-64_windows_msvc.asm", "blake3_compress_in_place_sse2"),
-  ("c/blake3_sse2_x86-64_windows_msvc.asm", "blake3_compress_xof_sse2"),
   ("c/blake3_sse2_x86-64_windows_msvc.asm", "blake3_hash_many_sse2"),
   ("c/blake3_sse41_x86-64_windows_msvc.asm", "blake3_hash_many_sse41"),
   ("c/blake3_avx2_x86-64_windows_msvc.asm", "blake3_hash_many_avx2"),
-  ("c/blake3_avx512_x86-64_windows_msvc.asm", "blake3_compress_in_place_avx512"),
-  ("c/blake3_avx512_x86-64_windows_msvc.asm", "blake3_compress_xof_avx512"),
-  ("c/blake3_avx512_x86-64_windows_msvc.asm", "blake3_hash_many_avx512"),
-  ("c/blake3_neon.c", "blake3_hash_many_neon"),
-  ("src/wasm32_simd.rs", "compress_in_place"),
-  ("src/wasm32_simd.rs", "compress_xof"),
-  ("src/wasm32_simd.rs", "hash_many")]
+  ("c/blake3_avx512_x86-64_windows_msvc.asm", "blake3_hash_many_avx512")]
 
 /-- the flavours C04 quantifies over: no MASM, no NEON, no Wasm -/
 def Flavour.inScope (f : Flavour) : Bool := f.os != .windowsMsvc && !f.neon && !f.wasm
